@@ -39,3 +39,11 @@ reg("C04", "^TestC04$", q=(150, 4, 900), t=(1500, 16, 3600), batch=150,
          "exactly like a fresh store that only ever saw the surviving blocks.",
     note="Trusted: the code itself on the shorter history (twin) + SQLite. Look-ups keyed by root hashes that only existed on the dropped fork are outside the domain (rht is documented as never pruned). Known findings F3/F4 are excluded by signature and counted.",
     design="§3 C04")
+
+reg("C07", "^TestC07$", q=(40, 4, 900), t=(400, 16, 3600), batch=40, level="fault_enumeration",
+    technique="property-based testing with enumerated fault injection: rapid-generated histories; SQL-trigger faults at every row-writing statement of the target block's transaction in turn, cancelled contexts, restarts; oracle = pre-block snapshot equality and a fault-free twin run",
+    text="Fault enumeration: for generated histories of the three stores, each storage statement of the target block's transaction "
+         "is failed in turn (trigger from a second connection); after the failure nothing of the block is visible, after the retry "
+         "and the remaining blocks every table, query, root and proof equals a fault-free twin.",
+    note="Trusted: SQLite crash atomicity (a kill inside a transaction = rollback); the twin run; DELETEs matching no row cannot be failed.",
+    design="§3 C07")
